@@ -151,6 +151,7 @@ def evaluate(ctx, scn):
             elif rep == "failed":
                 context = "after-thrown-step" if c.reply[1].startswith("exception") else "after-failed-step"
                 ev.counters["probe:step_%s" % ("thrown" if "thrown" in context else "failed")] += 1
+                ev.counters["fault:fired_STEP_%s" % ("THROW" if "thrown" in context else "FAIL")] += 1
                 interesting = True
         elif kind == "rewind":
             if rep == "accepted":
@@ -211,6 +212,8 @@ def evaluate(ctx, scn):
             if c.echo != marked_text and not (c.echo and marked_text and line_matches(c.echo, marked_text)):
                 reported.add(("echo", context))
                 ev.add(PROP, "echo", context, "`%s` echoed %r while the listing marks %r" % (kind, (c.echo or "nothing")[:60], (marked_text or "nothing")[:60]))
+    if scn.get("injected"):
+        ev.counters["fault:configured_STEP_%s" % ("THROW" if scn["injected"] == "throw" else "FAIL")] += 1
     ev.nontrivial = marker_moves >= 2 and interesting
     ev.cov = trace
     ev.counters["marker_moves"] += marker_moves
